@@ -255,14 +255,12 @@ Definition split_fq (url : bytes) : bytes * bytes * bytes :=
 
 (* urlsplit after the scheme has been taken off *)
 Definition urlsplit_rest (scheme url : bytes) : option (bytes * bytes * bytes * bytes * bytes) :=
-  match url with
-  | x2f :: x2f :: rest =>
-      let '(netloc, rest') := span (fun b => negb (is_delim b)) rest in
-      if netloc_ok netloc then
-        let '(p, q, f) := split_fq rest' in Some (scheme, netloc, p, q, f)
-      else None
-  | _ => let '(p, q, f) := split_fq url in Some (scheme, [], p, q, f)
-  end.
+  if starts_with [cSLASH; cSLASH] url then
+    let '(netloc, rest') := span (fun b => negb (is_delim b)) (skipn 2 url) in
+    if netloc_ok netloc then
+      let '(p, q, f) := split_fq rest' in Some (scheme, netloc, p, q, f)
+    else None
+  else let '(p, q, f) := split_fq url in Some (scheme, [], p, q, f).
 
 (* urlsplit: None = ValueError; result (scheme, netloc, path, query, fragment) *)
 Definition urlsplit (url0 : bytes) : option (bytes * bytes * bytes * bytes * bytes) :=
